@@ -8,8 +8,13 @@ FULL = {'０': '0', '１': '1', '２': '2', '３': '3', '４': '4', '５': '5', 
         '，': ',', '／': '/', 'Ｇ': 'G', 'Ｍ': 'M', 'Ｔ': 'T', 'Ｋ': 'K', 'ｋ': 'k', '．': '.', '（': '(', '）': ')', '％': '%', '、': ','}
 
 
+RANGES = {'ascii': (0, 0x80), 'bmp': (0x80, 0x10000), 'astral': (0x10000, 0x110000), 'any': (0, 0x110000)}
+R0, R1 = RANGES[sl('c0', 'any')], RANGES[sl('c1', 'any')]
+
+
 def h_preprocess(s: str):
     assert len(s) == LEN
+    assert R0[0] <= ord(s[0]) < R0[1] and (LEN < 2 or R1[0] <= ord(s[1]) < R1[1])
     out = QueryProcessor.preprocess(s, False)
     assert len(out) == len(s)
     for i in range(len(s)):
